@@ -9,6 +9,8 @@ package doccomposer
 import (
 	"encoding/json"
 	"fmt"
+	"strconv"
+	"strings"
 
 	jsonpatch "github.com/evanphx/json-patch"
 
@@ -106,12 +108,66 @@ func applyJSON(doc document.Document, entry interface{}) (result document.Docume
 		return nil, err
 	}
 
-	docBytes, err = jsonPatches.Apply(docBytes)
-	if err != nil {
-		return nil, err
+	// Apply operations one at a time: the JSON patch library stores the same node under both
+	// locations of a 'copy', so later operations on one location would also change the other,
+	// and a copy into its own subtree creates a cycle that overflows the stack when serialized.
+	for i := range jsonPatches {
+		if err := checkCopyIntoSelf(jsonPatches[i]); err != nil {
+			return nil, err
+		}
+
+		docBytes, err = jsonPatches[i : i+1].Apply(docBytes)
+		if err != nil {
+			return nil, err
+		}
 	}
 
 	return document.FromBytes(docBytes)
+}
+
+// checkCopyIntoSelf refuses a 'copy' whose destination lies inside its own source.
+func checkCopyIntoSelf(op map[string]*json.RawMessage) error {
+	var kind, from, path string
+
+	for name, target := range map[string]*string{"op": &kind, "from": &from, "path": &path} {
+		if raw, ok := op[name]; ok && raw != nil {
+			if err := json.Unmarshal(*raw, target); err != nil {
+				return nil // not a string: the library rejects the operation
+			}
+		}
+	}
+
+	if kind != "copy" {
+		return nil
+	}
+
+	fromTokens := strings.Split(from, "/")
+	pathTokens := strings.Split(path, "/")
+
+	if len(pathTokens) <= len(fromTokens) {
+		return nil
+	}
+
+	// the library ignores whatever precedes the first '/'
+	for i := 1; i < len(fromTokens); i++ {
+		if normalizeToken(fromTokens[i]) != normalizeToken(pathTokens[i]) {
+			return nil
+		}
+	}
+
+	return fmt.Errorf("cannot copy '%s' into itself ('%s')", from, path)
+}
+
+// normalizeToken decodes a reference token and maps the different spellings of an array
+// index (e.g. 1, 01, +1) to one.
+func normalizeToken(token string) string {
+	token = strings.NewReplacer("~1", "/", "~0", "~").Replace(token)
+
+	if idx, err := strconv.Atoi(token); err == nil {
+		return strconv.Itoa(idx)
+	}
+
+	return token
 }
 
 func applyRecover(replaceDoc interface{}) (document.Document, error) {
